@@ -47,12 +47,13 @@ def verify(d):
         pkg = "./" + (meta.get("demo_dir", ".") or ".").strip("./") if (meta.get("demo_dir", ".") or ".").strip("./") else "."
         names = re.findall(r"^func (Test\w+)\(", open(demo).read(), re.M)
         only = ["-run", "^(%s)$" % "|".join(names)]
-        rc0, out0 = sh(["go", "test", "-vet=off", "-count=1"] + only + [pkg], cwd=wt)
+        race = ["-race"] if "-race" in meta.get("demo_run", "") else []  # a demo of a data race needs the detector
+        rc0, out0 = sh(["go", "test", "-vet=off", "-count=1"] + race + only + [pkg], cwd=wt)
         res["demo_passes_without_patch"] = rc0 == 0
         rc, out = sh(["git", "apply", os.path.join(d, "patch.diff")], cwd=wt)
         res["patch_applies"] = rc == 0
         if rc == 0:
-            rc1, out1 = sh(["go", "test", "-vet=off", "-count=1"] + only + [pkg], cwd=wt)
+            rc1, out1 = sh(["go", "test", "-vet=off", "-count=1"] + race + only + [pkg], cwd=wt)
             res["demo_fails_with_patch"] = rc1 != 0 and "FAIL" in out1 and "[build failed]" not in out1
             os.remove(demo)
             rc2, out2 = sh(["go", "test", "-vet=off", "-count=1", ".", "./pkg/binding", "./pkg/handlers", "./pkg/render"], cwd=wt)
